@@ -150,10 +150,6 @@ Definition judge_index (c o : sexp) : verdict :=
     end
   end.
 
-(** * edit: the tables left by an editing operation (its own Reinit* call) against the tree it
-    produced.  case ((kind edit) (tree T) (op name) ...)
-    obs ((operr msg) (tree T') (audit (...)) (tips ...) (edges ...)).  Failures of the operation
-    itself (error, panic) belong to other properties. *)
 (** * samebip *)
 Definition split_sides (t : utree) : list (list string) :=
   let all := tipset t in map (fun ec => canon_side all (sset (leaves (snd ec)))) (edges t).
